@@ -19,12 +19,13 @@ enum AnyCase {
 fn free_strategy() -> BoxedStrategy<FreeCase> {
     let job = prop_oneof![
         10 => any::<u16>().prop_map(Job::Resolve),
+        2 => any::<u16>().prop_map(Job::Drop),
         1 => (0u8..2).prop_map(Job::Start),
         1 => Just(Job::Noop),
         1 => Just(Job::View),
     ];
     let phases = prop::collection::vec(prop::collection::vec(prop::collection::vec(job, 1..4), 2..5), 1..7);
-    let base = GenCfg { abortable: false, task_aborts: false, select: false, chans: false, max_acts: 1, scale: false, ..GenCfg::standard() };
+    let base = GenCfg { abortable: false, task_aborts: false, select: false, chans: false, mixed: 0, max_acts: 1, scale: false, ..GenCfg::standard() };
     let legacy = GenCfg { select: false, chans: false, max_acts: 1, scale: false, ..GenCfg::legacy() };
     let host = prop_oneof![3 => Just(HostKind::Core), 2 => Just(HostKind::Legacy), 2 => Just(HostKind::BridgeBincode), 2 => Just(HostKind::BridgeJson)];
     (host, universe(base), universe(legacy), phases)
@@ -43,11 +44,12 @@ const FREE_REPLAYS: usize = 300;
 fn strategy() -> BoxedStrategy<ConcCase> {
     let job = prop_oneof![
         8 => any::<u16>().prop_map(Job::Resolve),
+        2 => any::<u16>().prop_map(Job::Drop),
         1 => (0u8..2).prop_map(Job::Start),
         1 => Just(Job::Noop),
         2 => Just(Job::View),
     ];
-    let cfg = GenCfg { abortable: false, task_aborts: false, retaining: false, max_acts: 1, scale: false, ..GenCfg::standard() };
+    let cfg = GenCfg { abortable: false, task_aborts: false, retaining: false, select_keep: false, mixed: 0, max_acts: 1, scale: false, ..GenCfg::standard() };
     (universe(cfg), prop::collection::vec(prop::collection::vec(job, 2..4), 1..7), prop::collection::vec((any::<u8>(), any::<u8>()), 0..80), proptest::bool::weighted(0.3))
         .prop_map(|(mut universe, phases, choices, park_in_app)| {
             universe.acts.clear();
@@ -106,6 +108,9 @@ pub fn main(mode: Mode) {
         if info.stream_items > 0 {
             labels.push("free:stream-items-delivered");
         }
+        if info.drops > 0 {
+            labels.push("free:requests-dropped-on-a-shell-thread");
+        }
         if info.events >= 4 {
             labels.push("free:>=4-events-applied");
         }
@@ -147,7 +152,7 @@ pub fn main(mode: Mode) {
                 Report {
                     prop,
                     tier,
-                    rule: "universes (command API, depth <= 3, no aborts) x 1-6 phases of 2-3 concurrent shell calls on one Core (resolutions of distinct live requests, shell events, view reads), each call on its own thread, under a harness-owned schedule: crux_core's verif points park every thread, a generated run-length-encoded choice list (<= 80 entries, then round-robin) releases one at a time; in 30 % of the cases workers are also parked inside the app's view / update, i.e. while holding the model lock (a worker that then blocks on that lock is detected by its silence and the holder is let go); the totally ordered witness trace of each phase is replayed on the reference runtime and the per-phase obligations are checked (nothing runnable, nothing discarded while alive, every effect returned by exactly one call, view = applied events, concurrent view reads are prefixes, quiescent afterwards); SECOND CLAUSE (free-running): order-independent universes (no select, cancellation, channel receive or follow-up program) on the typed Core, the legacy capability API, the bincode bridge and the JSON bridge; 1-6 phases in which 2-4 OS threads, released together by a barrier, each make 1-3 calls back to back (resolutions of distinct outstanding requests, one program start, no-ops, view reads) with no schedule control; every phase is compared with a sequential twin (a second instance of the host given the same calls one after the other): same multiset of effects, same resolution results, same events applied; plus model-free invariants (each effect returned once, delivery exact and in order, events once and per emitter in order, update not re-entered, view = update log, ids of outstanding requests distinct, quiescent afterwards); non-trivial there = >= 2 threads resolving at once. FIRST CLAUSE: non-trivial = a worker was held between a command task's poll and its eviction decision while another worker passed a waker step, or held at an executor point while another worker ran the executor, or held inside view / update while another worker ran; distinct = distinct case",
+                    rule: "universes (command API, depth <= 3, no aborts) x 1-6 phases of 2-3 concurrent shell calls on one Core (resolutions of distinct live requests, requests dropped unanswered on the calling thread followed by a no-op call, shell events, view reads), each call on its own thread, under a harness-owned schedule: crux_core's verif points park every thread, a generated run-length-encoded choice list (<= 80 entries, then round-robin) releases one at a time; in 30 % of the cases workers are also parked inside the app's view / update, i.e. while holding the model lock (a worker that then blocks on that lock is detected by its silence and the holder is let go); the totally ordered witness trace of each phase is replayed on the reference runtime and the per-phase obligations are checked (nothing runnable, nothing discarded while alive, every effect returned by exactly one call, view = applied events, concurrent view reads are prefixes, quiescent afterwards); SECOND CLAUSE (free-running): order-independent universes (no select, cancellation, channel receive or follow-up program) on the typed Core, the legacy capability API, the bincode bridge and the JSON bridge; 1-6 phases in which 2-4 OS threads, released together by a barrier, each make 1-3 calls back to back (resolutions of distinct outstanding requests, typed hosts: requests dropped unanswered followed by a no-op call, one program start, no-ops, view reads) with no schedule control; every phase is compared with a sequential twin (a second instance of the host given the same calls one after the other): same multiset of effects, same resolution results, same events applied; plus model-free invariants (each effect returned once, delivery exact and in order, events once and per emitter in order, update not re-entered, view = update log, ids of outstanding requests distinct, quiescent afterwards); non-trivial there = >= 2 threads resolving at once. FIRST CLAUSE: non-trivial = a worker was held between a command task's poll and its eviction decision while another worker passed a waker step, or held at an executor point while another worker ran the executor, or held inside view / update while another worker ran; distinct = distinct case",
                     assumptions: vec![
                         "schedule points in crux are outside every crux lock; a traced task poll is one atomic schedule step; the points inside the test app's view / update are reached while the model lock is held, and a 15 ms silence of the released worker is read as 'blocked on that lock' (this affects only which schedules are explored, never a verdict)".into(),
                         "memory-ordering effects below the granularity of the schedule points are not explored".into(),
